@@ -193,12 +193,34 @@ Q_SHAPES = {
             [(2.0, 4.0), (0.0, 0.0)],
         ],
     ),
+    # a boundary with an S-shaped cubic (inner control points on opposite sides of the chord)
+    "scub": (
+        "ctrl",
+        [
+            [(0.0, 0.0), (1.0, 3.0), (2.0, -3.0), (3.0, 0.0)],
+            [(3.0, 0.0), (3.0, 4.0)],
+            [(3.0, 4.0), (0.0, 4.0)],
+            [(0.0, 4.0), (0.0, 0.0)],
+        ],
+    ),
+    # a disc that overlaps c16 only inside one arc of each circle (two-segment lens)
+    "c16near": ("circle", 1.0, (1.98 * 0.8314696123025452, 1.98 * 0.5555702330196022), 16),
+    # a lens shifted against "lens": the overlap is bounded by one arc of each
+    "lens2": (
+        "ctrl",
+        [
+            [(-0.25, 1.0), (0.75, -0.5), (1.75, 1.0)],
+            [(1.75, 1.0), (0.75, 2.5), (-0.25, 1.0)],
+        ],
+    ),
+    # a square whose lower edge cuts a cap out of one quarter-arc of c4
+    "fcap": ("verts", [(0.15, 0.9), (1.3, 0.35), (1.75, 1.3), (0.6, 1.85)]),
     # float polygons living at the scale of the curved family
     "fsq": ("verts", [(-0.6, -0.7), (0.9, -0.65), (0.85, 0.8), (-0.55, 0.75)]),
     "ftri": ("verts", [(-1.3, -0.4), (1.4, -0.1), (0.1, 1.45)]),
     "fbar": ("verts", [(-1.5, -0.15), (1.5, -0.1), (1.5, 0.2), (-1.5, 0.15)]),
 }
-Q_ORDER = ["c16", "c8", "c4", "c5", "c16b", "c8s", "c8far", "lens", "blob", "rsq", "fsq", "ftri", "fbar"]
+Q_ORDER = ["c16", "c8", "c4", "c5", "c16b", "c8s", "c8far", "lens", "blob", "rsq", "fsq", "ftri", "fbar", "scub", "dblh", "zeroh", "c16near", "lens2", "fcap"]
 
 
 # --------------------------------------------------------------------------- leaf data
@@ -390,6 +412,8 @@ def expr_id(e):
         return e[1]
     if t == "WL":
         return "warm:" + e[1]
+    if t == "MV":
+        return "moved(%s by %s,%s)" % (expr_id(e[1]), e[2], e[3])
     if t == "PC":
         return "PC." + e[1] + "#" + (e[2] if len(e) > 2 else "int")
     if t == "V":
@@ -409,6 +433,8 @@ def expr_leaves(e):
     t = e[0]
     if t in ("L", "V", "PC", "WL"):
         return [e]
+    if t == "MV":
+        return [e]
     if t in ("E", "W"):
         return []
     out = []
@@ -426,6 +452,15 @@ def lib_eval(e, trace=None):
         return build_leaf(e[1])
     if t == "WL":
         return build_warm_leaf(e[1])
+    if t == "MV":
+        # an object with a past: used in operators and queries, then moved in place
+        X = lib_eval(e[1])
+        X | ~X
+        X in X
+        float(X)
+        X.box()
+        X.move(parse_num(e[2]), parse_num(e[3]))
+        return X
     if t == "PC":
         return build_pc(e[1], e[2] if len(e) > 2 else "int")
     if t == "V":
@@ -463,6 +498,9 @@ def model_eval(e):
     t = e[0]
     if t in ("L", "WL"):
         return leaf_region(e[1])
+    if t == "MV":
+        dx, dy = rg.ex(parse_num(e[2])), rg.ex(parse_num(e[3]))
+        return model_eval(e[1]).image(lambda p: (p[0] + dx, p[1] + dy))
     if t == "PC":
         return pc_region(e[1], e[2] if len(e) > 2 else "int")
     if t == "V":
